@@ -251,7 +251,7 @@ def pre_case(r, tier):
     elif u < 0.88:
         # long signals straddling typical block sizes (a block-wise / chunked rewrite must still be the
         # recurrence on the ORIGINAL samples at every block boundary)
-        shape = [r.choice([4097, 8194, 16385, 16386, 16400, 32770, 40001])]
+        shape = [r.choice([4097, 8194, 16385, 16386, 16400, 32770, 40001, 65537, 65538, 131075])]
     elif u < 0.96:
         shape = [r.randint(0, 4), r.randint(0, 5)]
     else:
@@ -808,6 +808,11 @@ FIXED_PRE = [
     # the cases a reader would try by hand; all-ones with coeff 1 separates old-value from updated-value recurrences
     dict(op="pre", dtype=d, shape=[n], in_place=ip, axis=None, coeff=c, sig=s, xseed=7)
     for d in DTYPES for n in (0, 1, 2, 3, 5) for ip in (False, True) for c in (0.0, 0.5, 1.0, 0.97) for s in ("ones", "small")
+] + [
+    # recordings longer than 2**16 samples, in place and not (every run): whatever is processed in blocks must join up on
+    # the ORIGINAL samples at every block boundary
+    dict(op="pre", dtype="float64", shape=[n], in_place=ip, axis=None, coeff=0.5, sig="small", xseed=9)
+    for n in (65537, 70001) for ip in (True, False)
 ]
 
 
